@@ -1,5 +1,6 @@
 import XmppModel.Model.Serve
 import XmppModel.Lemmas.Serve
+import XmppModel.Lemmas.ServeView
 /-!
 # C08 — handlers see one element at a time; stream-level input never reaches them
 
@@ -20,6 +21,121 @@ stream-namespace element, at any nesting depth -/
 theorem C08_stream_level_hidden (cfg : Cfg) (inp : List Tok) (progs : List Prog) :
     ∀ i ∈ (serve cfg inp progs).invs, InvClean i :=
   serveF_clean cfg _ _ progs
+
+/-! ### one element at a time -/
+
+/-- what `k` reads of an element return: its first `k` tokens (through the end tag), then EOF
+for every further attempt -/
+theorem C08_view_shape : ∀ (body : List Tok) (k : Nat),
+    viewOf body k = (body.take k).map Obs.tok ++ List.replicate (k - body.length) Obs.eof := by
+  intro body
+  induction body with
+  | nil =>
+    intro k
+    induction k with
+    | zero => rfl
+    | succ k ih => simp [viewOf, ih, List.replicate_succ]
+  | cons t ts ih =>
+    intro k
+    cases k with
+    | zero => simp [viewOf]
+    | succ k => simp [viewOf, ih k]
+
+/-- **exact view and resynchronisation**: for a well-formed element of ordinary content
+`<n as> body` followed by any `rest`, and **every** handler program that returns nil (any
+number of reads — none, some, all, beyond the end — interleaved with any writes): the handler
+is given the start tag (from normalised) and its reads return exactly the element's tokens up
+to and including its end tag, then EOF; afterwards the session's input stands exactly at
+`rest` with both readers back at their outer depth, whatever part was consumed -/
+theorem C08_exact_view_resync (cfg : Cfg) (rs : RS) (n : Name) (as : List Attr) (body rest : List Tok)
+    (prog : Prog)
+    (hi : rs.inp = .start n as :: (body ++ rest)) (hn : (n.space != nsStream) = true)
+    (hwf : splitElem 0 body = some (body, [])) (hpl : ∀ t ∈ body, plainTok t = true)
+    (hret : prog.ret = .ok) (d : List Tok)
+    (hd : autoReply cfg n (blankFrom cfg n as)
+      (WS.init.encAll (getId (blankFrom cfg n as)) (writesOf prog.ops)).wrote = some d) :
+    handleInputStream cfg rs prog =
+      .next (some { start := .start n (blankFrom cfg n as), view := viewOf body (nreads prog.ops) })
+        (writesOf prog.ops ++ d) { inp := rest, dIn := rs.dIn, dOut := 0, sticky := none } :=
+  handleInputStream_elem cfg rs n as body rest prog hi hn
+    (by simpa using splitElem_ext body 0 body [] rest hwf) hpl hret d hd
+
+/-- **one invocation per top-level element, in arrival order**: for any sequence of
+well-formed elements followed by the peer's closing tag (and anything after it), with handlers
+that return nil, the invocations are exactly the elements, in order, each with its own start
+tag and exact view; what is written is each handler's output followed by what the session adds
+for that element; and `Serve` ends without error -/
+theorem C08_one_per_element (cfg : Cfg) (cs : List Case) (junk : List Tok)
+    (hok : ∀ c ∈ cs, c.Ok cfg) :
+    serve cfg (cs.flatMap Case.toks ++ .stop ⟨nsStream, "stream"⟩ :: junk) (cs.map (·.prog))
+      = { invs := cs.map (Case.inv cfg), written := cs.flatMap Case.written, result := .clean } := by
+  have hlen : cs.length ≤ (cs.flatMap Case.toks).length := by
+    induction cs with
+    | nil => simp
+    | cons c cs ih =>
+      have := ih (fun x hx => hok x (by simp [hx]))
+      rw [List.flatMap_cons, List.length_append]
+      simp only [Case.toks, List.length_cons]
+      omega
+  unfold serve
+  obtain ⟨f, hf⟩ : ∃ f, (cs.flatMap Case.toks ++ Tok.stop ⟨nsStream, "stream"⟩ :: junk).length + 1
+      = (f + 1) + cs.length :=
+    ⟨(cs.flatMap Case.toks).length - cs.length + junk.length + 1, by
+      rw [List.length_append, List.length_cons]; omega⟩
+  rw [hf]
+  have := serveF_cases cfg cs (f + 1) 0 (.stop ⟨nsStream, "stream"⟩ :: junk) hok
+  simp only [RS.init]
+  rw [this]
+  simp [serveF, handleInputStream, RS.next, verdict, nsStream]
+
+/-- **from normalisation**: on a stanza whose first unqualified from attribute equals the
+session's own bare address the handler is shown an empty from -/
+theorem C08_from_blank (cfg : Cfg) (n : Name) (as : List Attr) (hs : isStanza n cfg.ns = true)
+    (hf : firstFrom as = cfg.localBare) : firstFrom (blankFrom cfg n as) = "" := by
+  unfold blankFrom
+  rw [if_pos hs]
+  induction as with
+  | nil => simp [blankFirstFrom, firstFrom]
+  | cons a as ih =>
+    unfold blankFirstFrom
+    by_cases ha : (a.name.loc == "from" && a.name.space == "") = true
+    · rw [if_pos ha]
+      have hv : a.value = cfg.localBare := by simpa [firstFrom, List.find?, ha] using hf
+      simp [hv, firstFrom, ha]
+    · rw [if_neg ha]
+      have hf' : firstFrom as = cfg.localBare := by simpa [firstFrom, List.find?, ha] using hf
+      have := ih hf'
+      simpa [firstFrom, List.find?, ha] using this
+
+/-- … and any other from, and every element that is not a stanza of the stream's namespace, is
+handed over unchanged -/
+theorem C08_from_kept (cfg : Cfg) (n : Name) (as : List Attr)
+    (h : isStanza n cfg.ns = false ∨ firstFrom as ≠ cfg.localBare) : blankFrom cfg n as = as := by
+  unfold blankFrom
+  rcases h with h | h
+  · simp [h]
+  · by_cases hs : isStanza n cfg.ns = true
+    · rw [if_pos hs]
+      induction as with
+      | nil => rfl
+      | cons a as ih =>
+        unfold blankFirstFrom
+        by_cases ha : (a.name.loc == "from" && a.name.space == "") = true
+        · rw [if_pos ha]
+          have hv : a.value ≠ cfg.localBare := by simpa [firstFrom, List.find?, ha] using h
+          simp [hv]
+        · rw [if_neg ha]
+          have h' : firstFrom as ≠ cfg.localBare := by simpa [firstFrom, List.find?, ha] using h
+          rw [ih h']
+    · simp [hs]
+
+/-- non-vacuity of `Case.Ok`: a message with a body and a nested child, a handler that reads
+two tokens and writes nothing -/
+example : (Case.mk ⟨nsClient, "message"⟩ [attr "id" "m1"]
+    [.start ⟨nsClient, "body"⟩ [], .chars "hi", .stop ⟨nsClient, "body"⟩, .stop ⟨nsClient, "message"⟩]
+    { ops := [.read, .read], ret := .ok } []).Ok
+    { ns := nsClient, localBare := "me@example.com", jidCanon := fun v => some v } :=
+  ⟨by decide, by decide, by decide, rfl, by decide⟩
 
 /-- the peer's closing tag ends `Serve` without error and without any invocation, whatever
 follows it and whatever the handlers are -/
